@@ -6,4 +6,5 @@ CONSTANTS
   PruneBeforeWrite = FALSE
   LooseBeforePacked = FALSE
   StaleSnapshot = FALSE
+  StaleShortcut = FALSE
 CHECK_DEADLOCK FALSE
